@@ -11,6 +11,16 @@ shift; [ $# -gt 0 ] && shift
 export CARGO_NET_OFFLINE=true
 export VERIF_ROOT="$ROOT"
 export VERIF_SEED="${VERIF_SEED:-0}"
+# make a relative --replay path absolute (we change directory below)
+ARGS=()
+while [ $# -gt 0 ]; do
+  if [ "$1" = "--replay" ] && [ $# -ge 2 ]; then
+    case "$2" in /*) ARGS+=("--replay" "$2");; *) ARGS+=("--replay" "$PWD/$2");; esac
+    shift 2
+  else
+    ARGS+=("$1"); shift
+  fi
+done
 cd "$ROOT/harness" || exit 2
 BUILD_LOG="$ROOT/harness/target/build-$ID.log"
 mkdir -p "$ROOT/harness/target"
@@ -19,4 +29,4 @@ if ! cargo build --release --bin vcheck >"$BUILD_LOG" 2>&1; then
   grep -E "^error" -A6 "$BUILD_LOG" | head -40
   exit 2
 fi
-exec "$ROOT/harness/target/release/vcheck" "$ID" "$TIER" "$@"
+exec "$ROOT/harness/target/release/vcheck" "$ID" "$TIER" "${ARGS[@]}"
